@@ -2,7 +2,11 @@
 // on generated lattice geometries (property C13) and prints, per case, the observations the
 // model is compared against:
 //
-//	id class input hull variant hull(variant) hull(hull) mbrArea mbrWidth valid
+//	id class input hull variant hull(variant) hull(hull) mbrArea mbrWidth valid scaleExp
+//
+// Classes "scaled" and "rescaled" run the implementation on the printed lattice input multiplied
+// by 2^scaleExp and print its outputs divided by 2^scaleExp (both exact): the case is judged on
+// the pre-image.
 //
 // Geometries are printed in the prefix token format of lib.Dump with decimal ordinates ("Z dump");
 // rectangles as "R" + ten 16-digit hex float64 bit patterns, degenerate results as "G" + Z dump.
@@ -25,7 +29,7 @@ import (
 
 func fz(f float64) string { return strconv.FormatFloat(f, 'f', -1, 64) }
 
-// unscale: class "scaled" runs the implementation on the lattice case multiplied by 2^unscale
+// unscale: classes "scaled" and "rescaled" run the implementation on the lattice case multiplied by 2^unscale
 // (exact in binary floating point, and commuting exactly with every operation of the hull and
 // orientation code); X/Y of every OUTPUT are divided by 2^unscale again (exact) before they are
 // printed, so the observations must equal those of the lattice case itself.
@@ -625,6 +629,7 @@ func main() {
 	sizes := map[string]int{}
 	hullKinds := map[string]int{}
 	scaleHist := map[string]int{}
+	rescaledHist := map[string]int{}
 	for i := 0; i < a.N; i++ {
 		r := root.Fork()
 		g := &gen{r: r, ct: geom.CoordinatesType(0)}
@@ -661,6 +666,25 @@ func main() {
 		case i%20 == 19:
 			class = "empty"
 			n = g.typed(lib.Kind(r.Intn(7)), nil, 0)
+		case i%25 == 3:
+			// first hull edge not the optimal base, scaled by 2^k over the whole exact range (rescaled.go)
+			class = "rescaled"
+			pts, shape, fa, fw, df := g.rescaledCloud()
+			kinds := []lib.Kind{lib.KMPoint, lib.KMPoint, lib.KMPoint, lib.KLine, lib.KMLine, lib.KPoly, lib.KMPoly}
+			n = g.typed(kinds[r.Intn(len(kinds))], pts, 0)
+			scaleExp = g.rescaledExp(n)
+			rescaledHist["shape_"+shape]++
+			if fa {
+				rescaledHist["first_edge_not_area_optimal"]++
+			}
+			if fw {
+				rescaledHist["first_edge_not_width_optimal"]++
+			}
+			if df {
+				rescaledHist["no_edge_optimal_for_both"]++
+			}
+			b := (scaleExp+600)/100*100 - 600 // floor to a multiple of 100
+			rescaledHist[fmt.Sprintf("exp_%d..%d", b, b+99)]++
 		default:
 			shape := shapes[r.Intn(len(shapes))]
 			k := g.size()
@@ -731,11 +755,12 @@ func main() {
 			rectOf(geom.RotatedMinimumAreaBoundingRectangle, in),
 			rectOf(geom.RotatedMinimumWidthBoundingRectangle, in),
 			valid,
+			strconv.Itoa(scaleExp), // the implementation saw the input multiplied by 2^this (0: as printed)
 		}
 		unscale = 0
 		fmt.Fprintln(w, strings.Join(fields, "\t"))
 	}
 	js, _ := json.Marshal(map[string]interface{}{"classes": classes, "kinds": kinds, "shapes": shapesHist,
-		"cloud_sizes": sizes, "hull_types": hullKinds, "scaled_by": scaleHist})
+		"cloud_sizes": sizes, "hull_types": hullKinds, "scaled_by": scaleHist, "rescaled": rescaledHist})
 	fmt.Fprintf(w, "#GEN\t%s\n", js)
 }
